@@ -827,6 +827,8 @@ regp_recv(RegP *p, RPMaybeFrame *mf)
     case RP_EP_TCP: {
         const ssize_t rc = lenp_decode_source_to_sink(&p->ep.source, &recv);
         if (rc < 0) {
+            /* Nothing is handed to the caller, so nobody else can free. */
+            regp_free(p, (RPFrame*)cs.buffer.data);
             return rc;
        }
     } break;
@@ -836,6 +838,8 @@ regp_recv(RegP *p, RPMaybeFrame *mf)
         RFC1055Context slip = RFC1055_CONTEXT_INIT_DEFAULT;
         const int rc = rfc1055_decode(&slip, &p->ep.source, &recv);
         if (rc < 0) {
+            /* Nothing is handed to the caller, so nobody else can free. */
+            regp_free(p, (RPFrame*)cs.buffer.data);
             return rc;
         }
     } break;
